@@ -34,6 +34,7 @@ func extraFacts(lf *leanFile) {
 	remoteFacts(lf)
 	referrersFlowFacts(lf)
 	capabilityFacts(lf)
+	tarfsFacts(lf)
 	refFacts(lf)
 	copyFacts(lf)
 }
